@@ -617,6 +617,11 @@ func writeComputedFieldExpression(w *formatting.IndentedWriter, expression dsl.E
 				})
 
 				unionClassName, _ := common.UnionClassName(targetType)
+				if namedUnion := namedUnionDefinition(t.Target.GetResolvedType()); namedUnion != nil {
+					// The union class is generated under the name of the alias that defines it
+					unionClassName = common.TypeIdentifierName(namedUnion.Name)
+					targetTypeNamespace = namedUnion.Namespace
+				}
 				if targetTypeNamespace != "" && targetTypeNamespace != contextNamespace {
 					unionClassName = fmt.Sprintf("%s.%s", common.NamespaceIdentifierName(targetTypeNamespace), unionClassName)
 				}
@@ -692,6 +697,31 @@ func writeSwitchCaseOverOptional(w *formatting.IndentedWriter, switchCase *dsl.S
 		writeCore(nil, "")
 	default:
 		panic(fmt.Sprintf("Unknown pattern type '%T'", switchCase.Pattern))
+	}
+}
+
+// Returns the named type (alias) that directly defines the union that the type
+// refers to, or nil if the union is not defined by a named type.
+func namedUnionDefinition(t dsl.Type) *dsl.NamedType {
+	for {
+		switch tt := t.(type) {
+		case *dsl.GeneralizedType:
+			if tt.Dimensionality != nil || !tt.Cases.IsSingle() {
+				return nil
+			}
+			t = tt.Cases[0].Type
+		case *dsl.SimpleType:
+			namedType, ok := tt.ResolvedDefinition.(*dsl.NamedType)
+			if !ok {
+				return nil
+			}
+			if gt, ok := namedType.Type.(*dsl.GeneralizedType); ok && gt.Dimensionality == nil && gt.Cases.IsUnion() {
+				return namedType
+			}
+			t = namedType.Type
+		default:
+			return nil
+		}
 	}
 }
 
